@@ -229,3 +229,14 @@ Definition apply_mods (st : store) (mods : list (loc * option term)) : store := 
 Inductive outcome : Type := OOk (files : list (term * parts)) | OErr (e : err).
 Definition outcome_of (r : res (list (term * parts))) : outcome :=
   match r with Ok a => OOk a | Err e => OErr e end.
+
+(* compact printable summary of a restore result (harness): class 0 = Ok, 1..4 = error classes;
+   files as (path atom, [(chunk atom, start, end)]) *)
+Definition atom_id (t : term) : N := match t with Bytes n => n | _ => 0%N end.
+Definition err_code (e : err) : N :=
+  match e with Corrupted => 1 | DecryptFail => 2 | Missing => 3 | Malformed => 4 end%N.
+Definition summary (r : res (list (term * parts))) : N * list (N * list (N * N * N)) :=
+  match r with
+  | Ok fs => (0%N, map (fun f => (atom_id (fst f), map (fun p => (atom_id (fst (fst p)), snd (fst p), snd p)) (snd f))) fs)
+  | Err e => (err_code e, [])
+  end.
